@@ -320,6 +320,24 @@ func stressPool(n, iters int, r *stressRes) {
 	icert, _ := x509.ParseCertificate(ider)
 	inter := &caT{icert, ikey, ider}
 	roots, inters := poolOf(root.cert), poolOf(icert)
+	// decoys in the shared pool: two more CA certificates with the SAME subject key identifier as the real intermediate and
+	// two with its subject NAME but no key identifier - every verification has to look at several candidate issuers, found
+	// through both of the pool's indexes, and only one of them signed the leaf
+	for k, dc := range []struct {
+		cn  string
+		ski []byte
+	}{{"C20 decoy 1", []byte{9, 9}}, {"C20 decoy 2", []byte{9, 9}}, {"C20 intermediate", nil}, {"C20 intermediate", nil}} {
+		dkey, _ := sm2.GenerateKey(rand.Reader)
+		dt := &x509.Certificate{SerialNumber: nextSerial(), Subject: pkix.Name{CommonName: dc.cn}, NotBefore: pkiEpoch.Add(-time.Hour), NotAfter: pkiEpoch.Add(9 * 365 * 24 * time.Hour),
+			IsCA: true, BasicConstraintsValid: true, KeyUsage: x509.KeyUsageCertSign, SignatureAlgorithm: x509.SM2WithSM3, SubjectKeyId: dc.ski}
+		dder, err := x509.CreateCertificate(dt, root.cert, &dkey.PublicKey, root.key)
+		if err != nil {
+			r.bad("decoy %d: %v", k, err)
+			return
+		}
+		dcert, _ := x509.ParseCertificate(dder)
+		inters.AddCert(dcert)
+	}
 	leaves := make([]*x509.Certificate, n)
 	for g := range leaves {
 		_, lc, err := inter.issue(leafOpt{cn: fmt.Sprintf("leaf %d", g), dns: []string{fmt.Sprintf("l%d.example.com", g)}, usage: x509.KeyUsageDigitalSignature})
@@ -479,20 +497,28 @@ func stressConfig(n, iters int, r *stressRes) {
 		old[0], old[1] = byte(c-1), byte((c-1)>>8)
 		return [][32]byte{k, old}
 	}
-	srvGM.SetSessionTicketKeys(newKeys())
-	srvTLS.SetSessionTicketKeys(newKeys())
+	k0 := newKeys()
+	srvGM.SetSessionTicketKeys(k0)
+	srvTLS.SetSessionTicketKeys(k0)
 	stop := make(chan struct{})
 	var rot sync.WaitGroup
 	rot.Add(1)
 	go func() {
 		defer rot.Done()
+		var lastRot int64
 		for {
 			select {
 			case <-stop:
 				return
-			case <-time.After(3 * time.Millisecond):
-				srvGM.SetSessionTicketKeys(newKeys())
-				srvTLS.SetSessionTicketKeys(newKeys())
+			case <-time.After(300 * time.Microsecond):
+				// one rotation per round of handshakes (however slow they are): most tickets are then sealed under the key in
+				// force or the one before it, so that resumption - and re-issue through an old key - really happens
+				if done := atomic.LoadInt64(&r.Ops); done-lastRot >= int64(n) {
+					lastRot = done
+					k := newKeys() // <<new, previous first>>: the same list for both servers
+					srvGM.SetSessionTicketKeys(k)
+					srvTLS.SetSessionTicketKeys(k)
+				}
 			}
 		}
 	}()
@@ -541,7 +567,9 @@ func stressConfig(n, iters int, r *stressRes) {
 	r.mu.Lock()
 	r.Mismatch = append(r.Mismatch[:len(r.Mismatch):len(r.Mismatch)], []string{}...)
 	r.mu.Unlock()
-	_ = resumed
+	if atomic.LoadInt64(&resumed) < int64(n*iters)/4 {
+		r.bad("the driver is vacuous: only %d of %d handshakes resumed", resumed, n*iters)
+	}
 }
 
 // one LRU client session cache (what a Config shares between all its connections) used from many goroutines
